@@ -129,6 +129,23 @@ func asnOf(ip netip.Addr) geoip.ASN {
 	return 0
 }
 
+// asnList returns must and some autonomous systems no client belongs to, in
+// an order the tape chooses (the backend does not promise any).
+func asnList(t *kernel.Tape, must []geoip.ASN) (l []geoip.ASN) {
+	l = append(l, must...)
+	for _, a := range []geoip.ASN{64496, 64499, 64510, 7, 4200000000} {
+		if t.Chance(1, 2, "asn-extra") {
+			l = append(l, a)
+		}
+	}
+	for i := len(l) - 1; i > 0; i-- {
+		j := t.Choose(i+1, "asn-order")
+		l[i], l[j] = l[j], l[i]
+	}
+
+	return l
+}
+
 func buildUniverse(t *kernel.Tape) (u *universe) {
 	u = &universe{}
 	for i := 0; i < 3; i++ {
@@ -152,10 +169,10 @@ func buildUniverse(t *kernel.Tape) (u *universe) {
 				p.access.AllowedNets = []netip.Prefix{profAllowedNet}
 			}
 			if t.Chance(1, 2, "acc-blockasn") {
-				p.access.BlockedASN = []geoip.ASN{64500, 64501}
+				p.access.BlockedASN = asnList(t, []geoip.ASN{64500, 64501})
 			}
 			if t.Chance(1, 2, "acc-allowasn") {
-				p.access.AllowedASN = []geoip.ASN{64501}
+				p.access.AllowedASN = asnList(t, []geoip.ASN{64501})
 			}
 			if t.Chance(1, 2, "acc-names") {
 				p.access.BlocklistDomainRules = []string{"pblocked.names.test", "||psub.names.test^", "||ptype.names.test^$dnstype=AAAA"}
